@@ -74,4 +74,9 @@ ModeGate(api, m) ==
       [] api = "parse"   -> IF m \in 0..3 THEN "ok" ELSE "UBXParseError"
       [] api = "message" -> IF m \in 0..2 THEN "ok" ELSE "UBXMessageError"
       [] OTHER -> "?"
+
+\* What the reader reads from: a socket.socket instance (whatever else it can do - ssl.SSLSocket has a read() of its own) is wrapped in
+\* a SocketWrapper; anything else - files, pipes, serial ports, objects that merely have a recv() - is used as it is.
+\* kind = <<is a socket.socket instance, has read(), has recv()>>
+WrapRule(kind) == IF kind[1] THEN "wrapper" ELSE "same"
 =============================================================================
